@@ -449,6 +449,139 @@ theorem count_isSome {α β : Type} (g : α → Option β) (l : List α) :
   | nil => rfl
   | cons a l ih => cases h : g a <;> simp [h, ih]
 
+/-! ### progress: once the terminal answers without delay, everything written is transferred -/
+
+theorem readMax_pos : 0 < readMax := by decide
+
+/-- the state of a drain phase: initialised, data exchange, no accept delays left -/
+structure Draining (s : Sys) : Prop where
+  inv : Inv s
+  conn : s.m.connected = true
+  ready : s.t.phase = .ready
+  nodelay : s.t.tx.delays = []
+  wait0 : s.t.tx.wait = none ∨ s.t.tx.wait = some 0
+
+theorem inv_drain {s : Sys} (h : Inv s) : Inv s.drain := by
+  constructor <;> simp only [Sys.drain, Term.drain]
+  · exact h.tr_eq
+  · exact h.ra_eq
+  · exact h.pre
+  · exact h.post
+  · exact h.ack
+  · intro hp
+    refine ⟨(h.tx hp).1, fun hc => ?_⟩
+    simp [(h.tx hp).2 hc]
+  · exact h.rx
+  · exact h.held
+
+theorem draining_drain {s : Sys} (h : Inv s) (hc : s.m.connected = true) (hp : s.t.phase = .ready) :
+    Draining s.drain := by
+  refine ⟨inv_drain h, hc, hp, rfl, ?_⟩
+  simp only [Sys.drain, Term.drain]
+  cases s.t.tx.wait <;> simp
+
+/-- without delays a pending request is accepted in the very next terminal cycle -/
+theorem txStep_nodelay (t : TermTx) (tr : Bool) (outStr : Bytes) (hd : t.delays = [])
+    (hw : t.wait = none ∨ t.wait = some 0) :
+    (txStep t tr outStr).1.delays = [] ∧ (txStep t tr outStr).1.wait = none ∧
+    ((t.wait = some 0 ∨ (tr != t.seenTR) = true) → (txStep t tr outStr).2.isSome = true) := by
+  unfold txStep txNotice
+  rcases hw with hw | hw <;> cases hs : (tr != t.seenTR) <;> simp_all
+
+theorem drain_step {s : Sys} (h : Draining s) :
+    Draining (cycle s []).1 ∧ (cycle s []).1.m.outPipe = s.m.outPipe.drop readMax ∧
+    (s.m.outPipe = [] → (cycle s []).1.m.cur = none) := by
+  obtain ⟨hi', hs⟩ := cycle_spec s [] h.inv
+  obtain ⟨ht1, ht2⟩ := h.inv.tx h.ready
+  have hn := txStep_nodelay s.t.tx s.o.tr s.o.outStr h.nodelay h.wait0
+  have hts : (cycle s []).1.t = { s.t with tx := (txStep s.t.tx s.o.tr s.o.outStr).1, rx := (rxStep s.t.rx s.o.ra).1 } ∧
+      (cycle s []).2.accepted = (txStep s.t.tx s.o.tr s.o.outStr).2 := by
+    simp [cycle, Term.step, h.ready]
+  -- a pending chunk is accepted now
+  have hacc : (cycle s []).2.accepted.isSome = s.m.cur.isSome := by
+    rw [hts.2]
+    cases hc : s.m.cur with
+    | none =>
+      rcases hs.acc with e | ⟨e, e'⟩
+      · rw [← hts.2, e]
+      · rw [hc] at e; rw [e] at e'; simp at e'
+    | some c =>
+      have : (s.o.tr != s.t.tx.seenTR) = true := by
+        rw [hc] at ht1; simp at ht1; simpa using fun e => ht1 e.symm
+      simpa using hn.2.2 (Or.inr this)
+  have hp := hs.pipe
+  have hcur := hs.cur'
+  have hlive := hs.rd_live h.conn
+  have hpos := readMax_pos
+  simp only [List.append_nil] at hp hlive
+  refine ⟨⟨hi', hs.conn_mono h.conn, by rw [hts.1]; exact h.ready, by rw [hts.1]; exact hn.1,
+    Or.inl (by rw [hts.1]; exact hn.2.1)⟩, ?_, ?_⟩
+  · cases hr : (cycle s []).2.readChunk with
+    | some c =>
+      have := (hs.rd_ne c hr).2.2
+      simp only [List.append_nil] at this
+      rw [hr, this] at hp
+      simp only [Option.getD_some] at hp
+      have h2 := List.take_append_drop readMax s.m.outPipe
+      exact (List.append_cancel_left (hp.symm.trans h2.symm)).symm ▸ rfl
+    | none =>
+      rw [hr] at hp hcur
+      simp only [Option.getD_none, List.nil_append] at hp
+      have hc' : (cycle s []).1.m.cur = none := by
+        rw [hcur, hacc]; cases s.m.cur <;> simp
+      have he : s.m.outPipe = [] := by
+        have := hlive hc'
+        rcases List.take_eq_nil_iff.1 this with h0 | h0
+        · omega
+        · exact h0
+      rw [← hp, he]; simp
+  · intro he
+    cases hr : (cycle s []).2.readChunk with
+    | some c =>
+      have := hs.rd_ne c hr
+      simp [he] at this
+      exact absurd this.2.2 this.1
+    | none =>
+      rw [hcur, hr, hacc]; cases s.m.cur <;> simp
+
+theorem final_append (s : Sys) (a b : List Bytes) : final s (a ++ b) = final (final s a) b := by
+  induction a generalizing s with
+  | nil => rfl
+  | cons w a ih => exact ih _
+
+theorem idle_flatten (n : Nat) : (idle n).flatten = [] := by
+  induction n with
+  | zero => rfl
+  | succ n ih => simp only [idle, List.replicate_succ, List.flatten_cons, List.nil_append] at ih ⊢; exact ih
+
+theorem drain_run {s : Sys} (h : Draining s) (n : Nat) :
+    Draining (final s (idle n)) ∧ (final s (idle n)).m.outPipe = s.m.outPipe.drop (readMax * n) := by
+  induction n generalizing s with
+  | zero => exact ⟨h, by simp [idle, final]⟩
+  | succ n ih =>
+    obtain ⟨h1, h2, _⟩ := drain_step h
+    obtain ⟨k1, k2⟩ := ih h1
+    have e : final s (idle (n + 1)) = final (cycle s []).1 (idle n) := by
+      simp [idle, List.replicate_succ, final]
+    rw [e]
+    refine ⟨k1, ?_⟩
+    rw [k2, h2, List.drop_drop, Nat.mul_succ]
+    congr 1
+    omega
+
+/-- once the terminal answers without delay, `n + 1` cycles empty a pipe of at most `22 n` bytes and leave
+nothing pending -/
+theorem drain_empties {s : Sys} (h : Draining s) (n : Nat) (hn : s.m.outPipe.length ≤ readMax * n) :
+    (final s (idle (n + 1))).m.cur = none ∧ (final s (idle (n + 1))).m.outPipe = [] := by
+  obtain ⟨k1, k2⟩ := drain_run h n
+  have he : (final s (idle n)).m.outPipe = [] := by rw [k2]; exact List.drop_eq_nil_of_le hn
+  have e : final s (idle (n + 1)) = (cycle (final s (idle n)) []).1 := by
+    have : idle (n + 1) = idle n ++ [[]] := by simp [idle, List.replicate_succ']
+    rw [this, final_append]; rfl
+  obtain ⟨_, j2, j3⟩ := drain_step k1
+  rw [e]
+  exact ⟨j3 he, by rw [j2, he]; rfl⟩
+
 /-! ### the property: any oracle lists, any application writes, any number of cycles -/
 
 section property
@@ -527,6 +660,40 @@ theorem both_directions :
   ⟨(tx_exactly_once_in_order ta0 rr0 in0 iw txd plan ws).1, tx_held_until_accepted ta0 rr0 in0 iw txd plan ws,
    rx_exactly_once_in_order ta0 rr0 in0 iw txd plan ws, one_toggle_each_count ta0 rr0 in0 iw txd plan ws⟩
 
+/-- Progress.  Whatever happened during the run (any oracles, any writes), once initialisation is over and the
+terminal answers without delay, `n + 1` further cycles (22 n ≥ unread bytes) transfer everything: nothing is
+pending, the pipe is empty, and the chunks accepted by the terminal over the whole run are exactly the bytes
+the application wrote. -/
+theorem drain_transfers_everything (n : Nat)
+    (hc : (final (init ta0 rr0 in0 iw txd plan) ws).m.connected = true)
+    (hp : (final (init ta0 rr0 in0 iw txd plan) ws).t.phase = .ready)
+    (hn : (final (init ta0 rr0 in0 iw txd plan) ws).m.outPipe.length ≤ readMax * n) :
+    (final (final (init ta0 rr0 in0 iw txd plan) ws).drain (idle (n + 1))).m.cur = none ∧
+    (final (final (init ta0 rr0 in0 iw txd plan) ws).drain (idle (n + 1))).m.outPipe = [] ∧
+    (accs (trace (init ta0 rr0 in0 iw txd plan) ws) ++
+      accs (trace (final (init ta0 rr0 in0 iw txd plan) ws).drain (idle (n + 1)))).flatten = ws.flatten := by
+  have hi := inv_final ta0 rr0 in0 iw txd plan ws
+  have hd := draining_drain hi hc hp
+  obtain ⟨g1, g2⟩ := drain_empties hd n hn
+  refine ⟨g1, g2, ?_⟩
+  have tx1 := run_tx (run_of_inv _ (init_inv ta0 rr0 in0 iw txd plan) ws)
+  have p1 := run_pipe (run_of_inv _ (init_inv ta0 rr0 in0 iw txd plan) ws)
+  have tx2 := run_tx (run_of_inv _ hd.inv (idle (n + 1)))
+  have p2 := run_pipe (run_of_inv _ hd.inv (idle (n + 1)))
+  rw [g1] at tx2
+  rw [g2, idle_flatten] at p2
+  simp only [Option.toList_none, List.append_nil] at tx2 p2
+  have e1 : reads (trace (init ta0 rr0 in0 iw txd plan) ws) =
+      accs (trace (init ta0 rr0 in0 iw txd plan) ws) ++ (final (init ta0 rr0 in0 iw txd plan) ws).m.cur.toList := by
+    simpa [init] using tx1
+  have e3 : ws.flatten = (reads (trace (init ta0 rr0 in0 iw txd plan) ws)).flatten ++
+      (final (init ta0 rr0 in0 iw txd plan) ws).m.outPipe := by
+    simpa [init] using p1
+  have e2 : (final (init ta0 rr0 in0 iw txd plan) ws).drain.m = (final (init ta0 rr0 in0 iw txd plan) ws).m := rfl
+  rw [e2] at tx2 p2
+  rw [e3, p2, e1, ← tx2]
+  simp [List.flatten_append]
+
 end property
 
 /-! ### non-vacuity: a run with both directions active, delayed accepts, an empty and a full chunk -/
@@ -543,5 +710,13 @@ example : toggles false ((trace exSys exWrites).map (·.out.tr)) = 3 ∧
     toggles false ((trace exSys exWrites).map (·.out.ra)) = 3 := by decide
 example : (trace exSys exWrites).map (·.out.tr) =
     [false, false, false, true, true, false, false, false, true, true, true] := by decide
+
+/-- progress, non-vacuously: a run that stops with 78 bytes still in the pipe and a 9-cycle accept delay pending -/
+def exStuck : List Bytes := [[], [], [], (List.range 100).map UInt8.ofNat, []]
+example : (final exSys exStuck).m.connected = true ∧ (final exSys exStuck).t.phase = .ready ∧
+    (final (init true false [] 1 [9] []) exStuck).m.outPipe.length = 78 ∧
+    (final (init true false [] 1 [9] []) exStuck).m.outPipe.length ≤ readMax * 4 := by decide
+example : (accs (trace (init true false [] 1 [9] []) exStuck) ++
+    accs (trace (final (init true false [] 1 [9] []) exStuck).drain (idle 5))).flatten = exStuck.flatten := by decide
 
 end Ebv.C28
